@@ -18,5 +18,13 @@ func controlsC06() []Control {
 		{Name: "labels handed out starting at the dealer seat", Expect: "R8", Mutate: replaceIn("(*tableEngine).updatePlayerPositions", "for i := bbSeatID; i < maxSeat+bbSeatID; i++ {", "for i := dealerSeatID; i < maxSeat+dealerSeatID; i++ {", 0)},
 		{Name: "labels given to ineligible seated players too", Expect: "R8", Mutate: replaceIn("(*tableEngine).updatePlayerPositions", "if seatPlayer != nil && seatPlayer.Active() {", "if seatPlayer != nil && seatPlayer.IsIn {", 0)},
 		{Name: "dealt-in flags computed before the rotation", Expect: "R9", Mutate: replaceIn("(*tableEngine).openGame", "\t// Step 4: 計算座位\n", "\tfor i := 0; i < len(cloneTable.State.PlayerStates); i++ {\n\t\tplayer := cloneTable.State.PlayerStates[i]\n\t\tactive, err := te.sm.IsPlayerActive(player.PlayerID)\n\t\tif err != nil {\n\t\t\treturn oldTable, err\n\t\t}\n\t\tplayer.IsParticipated = active\n\t}\n\t// Step 4: 計算座位\n", 0)},
+		{Name: "hand list skips the player at index 0", Expect: "R10", Mutate: replaceIn("(*tableEngine).calcGamePlayerIndexes", "if playerIdx >= 0 && players[playerIdx].IsParticipated {", "if playerIdx > 0 && players[playerIdx].IsParticipated {", 1)},
+		{Name: "dealer of the hand looked up among players not dealt in", Expect: "R10", Mutate: replaceIn("(*tableEngine).calcGamePlayerIndexes", "if !p.IsParticipated {\n\t\t\t\tcontinue\n\t\t\t}\n", "", 0)},
+		{Name: "dead-button branch taken when the dealer is present", Expect: "R10", Mutate: replaceIn("(*tableEngine).calcGamePlayerIndexes", "if dealerPlayerIdx == UnsetValue {", "if dealerPlayerIdx != UnsetValue {", 0)},
+		{Name: "substitute dealer searched from the SB seat when the SB is dead", Expect: "R10", Mutate: replaceIn("(*tableEngine).calcGamePlayerIndexes", "if sbPlayerIdx == UnsetValue {", "if sbPlayerIdx != UnsetValue {", 0)},
+		{Name: "substitute dealer walk stops one seat early", Expect: "R10", Mutate: replaceIn("(*tableEngine).calcGamePlayerIndexes", "i >= startSeatID; i--", "i > startSeatID; i--", 0)},
+		{Name: "substitute dealer may be a seat that is not active", Expect: "R10", Mutate: replaceIn("(*tableEngine).calcGamePlayerIndexes", "ok && sp != nil && sp.Active()", "ok && sp != nil", 0)},
+		{Name: "hand list starts with a spurious entry", Expect: "R10", Mutate: replaceIn("(*tableEngine).calcGamePlayerIndexes", "gamePlayerIndexes := make([]int, 0)", "gamePlayerIndexes := make([]int, 1)", 0)},
+		{Name: "SB and BB seats swapped at the builder call", Expect: "R10", Mutate: replaceIn("(*tableEngine).openGame", "te.sm.CurrentSBSeatID(),\n\t\tte.sm.CurrentBBSeatID(),", "te.sm.CurrentBBSeatID(),\n\t\tte.sm.CurrentSBSeatID(),", 0)},
 	}
 }
